@@ -68,17 +68,17 @@ func structDump(c *hx.Case, what string, body hcl.Body, tree *ast.Body, depth in
 }
 
 func TestC03_SameConfiguration(t *testing.T) {
-	hx.Run(t, "C03", "SameConfiguration", 8000,
+	hx.Run(t, "C03", "SameConfiguration", 16000,
 		"spec tree over every hcldec kind + a body built from it (literal, JSON-expressible values) and perturbed (missing required items, extra items, zero/one/many blocks, wrong literal types; label counts kept equal to the spec's, since JSON derives label levels from the schema); one native rendering and 4 admissible JSON encodings (object / array-of-objects bodies, label objects / arrays of label objects, arrays of bodies, duplicate property names, \"//\" properties); oracle: same Content (attributes, per-type block sequence with labels, recursively), RawEquals hcldec.Decode values with a nil context and with an empty non-nil context when no string contains a template introducer, equal error flags; non-trivial = a labelled block, two blocks of one type and an array form or duplicate property; distinct by (spec dump, body dump)",
 		func(c *hx.Case) {
 			t := c.T
-			ms := gen.DrawSpec(t, gen.SpecOpts{Depth: 2, AttrNames: specAttrPool, BlockTypes: specBlockPool})
+			ms := gen.DrawSpec(t, gen.SpecOpts{Depth: 2, AttrNames: specAttrPool, BlockTypes: specBlockPool, BlockBias: 30})
 			c.Set("spec", ms.Dump())
 			kinds := map[string]bool{}
 			specKinds(ms, kinds)
 			featClasses(c, "spec_", kinds)
 			noTemplates := rapid.Bool().Draw(t, "no_template_strings")
-			body := gen.BodyFromSpec(t, ms, gen.BodyFromSpecOpts{Perturb: 8, Labels: sLabels, Expr: func(ty cty.Type) ast.Node {
+			body := gen.BodyFromSpec(t, ms, gen.BodyFromSpecOpts{Perturb: 25, Labels: sLabels, Expr: func(ty cty.Type) ast.Node {
 				n := literalOfType(t, ty)
 				if noTemplates {
 					n = stripIntroducers(n)
